@@ -110,6 +110,8 @@ struct P3  { uint8_t b[3]; };
 struct P4  { int32_t v; };
 struct P16 { double d; uint64_t u; };
 struct alignas(16) PA { uint8_t b[32]; };
+struct P256 { uint8_t b[256]; };			// sizes that do not fit an 8-bit counter
+struct P300 { uint32_t w[75]; };
 
 #if   VH_PAY == 1
 using Pay = P1;
@@ -121,10 +123,14 @@ using Pay = P4;
 using Pay = P16;
 #elif VH_PAY == 5
 using Pay = PA;
+#elif VH_PAY == 6
+using Pay = P256;
+#elif VH_PAY == 7
+using Pay = P300;
 #endif
 
 #if VH_PAY
-static inline uint8_t tokByte(int tok, size_t i) { return static_cast<uint8_t>((tok * 37 + static_cast<int>(i) * 11 + 1) & 0xFF); }
+static inline uint8_t tokByte(int tok, size_t i) { return static_cast<uint8_t>((tok * 37 + static_cast<int>(i) * 11 + static_cast<int>(i >> 8) * 5 + 1) & 0xFF); }
 static inline Pay mkPay(int tok) {
 	Pay p;
 	uint8_t bytes[sizeof(Pay)];
